@@ -105,6 +105,20 @@ func addSubscriptions(cfg *apifu.Config, s *graphql.Schema) {
 		}
 		cfg.AddSubscription(name, &d)
 	}
+	// a connection, and a second field that hands out the same connection type without the connection cost
+	// function (finding F-03j: costing its edges panicked)
+	conn := apifu.Connection(&apifu.ConnectionConfig{
+		NamePrefix: "Foo",
+		ResolveAllEdges: func(ctx graphql.FieldContext) (interface{}, func(a, b interface{}) bool, error) {
+			return []int{1, 2, 3}, func(a, b interface{}) bool { return a.(int) < b.(int) }, nil
+		},
+		EdgeCursor: func(edge interface{}) interface{} { return edge },
+		EdgeFields: map[string]*graphql.FieldDefinition{
+			"node": {Type: graphql.IntType, Resolve: func(ctx graphql.FieldContext) (interface{}, error) { return ctx.Object, nil }},
+		},
+	})
+	cfg.AddQueryField("foos", conn)
+	cfg.AddQueryField("firstFoos", &graphql.FieldDefinition{Type: conn.Type, Resolve: func(ctx graphql.FieldContext) (interface{}, error) { return nil, nil }})
 	// used by the dispatch probe: has the connection's context been cancelled (= did the server begin closing)?
 	cfg.AddQueryField("ctxDone", &graphql.FieldDefinition{Type: graphql.BooleanType, Resolve: func(ctx graphql.FieldContext) (interface{}, error) {
 		return ctx.Context.Err() != nil, nil
